@@ -361,6 +361,7 @@ class error_997_visitor(error_visitor.error_visitor):
         else:
             seg_base.append('')
         seg_str = seg_base.format('~', '*', ':')
+        self.ak4_count = 0
         errors = [x[0] for x in err_seg.errors]
         if 'SEG1' in errors:
             if '8' not in errors:
@@ -395,6 +396,9 @@ class error_997_visitor(error_visitor.error_visitor):
         seg_str = seg_base.format('~', '*', ':')
         for (err_cde, err_str, bad_value) in err_ele.errors:
             if err_cde in valid_AK4_codes:
+                if getattr(self, 'ak4_count', 0) >= 99:
+                    break  # an AK3 loop holds at most 99 AK4
+                self.ak4_count = getattr(self, 'ak4_count', 0) + 1
                 seg_data = pyx12.segment.Segment(seg_str, '~', '*', ':')
                 seg_data.set('AK403', err_cde)
                 if bad_value:
